@@ -523,6 +523,32 @@ def walk(fn, model, start=None, stop=None, follow_loops=False, max_steps=5000, s
                 return out, 'NEXIT', undec
             v = tg[0]
             continue
+        if v in g.branch and g.branch[v]['termk'] == 'SwitchStmt' and g.branch[v]['cond'] >= 0:
+            ev.unknown.clear()
+            val = ev.ev(g.branch[v]['cond'])
+            if val is None or isinstance(val, (str, tuple, float)):
+                undec.append((g.branch[v]['cond'], dict(ev.unknown)))
+                return out, 'undecided@%d' % g.branch[v]['cond'], undec
+            br = g.branch[v]
+            chosen = None
+            default = None
+            for tg_, bid in zip(br['targets'], br.get('succ_blocks', [])):
+                blk = g.blocks.get(bid) if bid is not None else None
+                if blk is None:
+                    continue
+                if blk.get('labelk') == 'CaseStmt' and blk.get('label', -1) >= 0:
+                    cn = fn.nodes[blk['label']]
+                    cvs = [fn.nodes[fn.strip(c_, 'all')].get('cv') for c_ in cn['ch'][:1]]
+                    if cvs and cvs[0] is not None and int(cvs[0]) == int(val):
+                        chosen = tg_
+                elif blk.get('labelk') == 'DefaultStmt':
+                    default = tg_
+            if chosen is None:
+                chosen = default if default is not None else br['targets'][-1]
+            if not chosen:
+                return out, 'NEXIT', undec
+            v = chosen[0]
+            continue
         if v in g.branch and g.branch[v]['cond'] >= 0 and len(g.branch[v]['targets']) == 2 and not g.branch[v]['tempdtor']:
             ev.unknown.clear()
             val = ev.ev(g.branch[v]['cond'])
